@@ -11,6 +11,9 @@ Case kinds
   eig     named eigenvalue sequences (exact model for linear / quadratic / inverse; all six in the oracle).
   kl      Karhunen–Loève data = drawn coefficients times basis (scripted `multivariate_normal`), every
           basis family, 1-D / 2-D / multivariate, non-default `centers` / `clusters_std`.
+  fresh   results of the simulation helpers (`_simulate_eigenvalues`, `_initialize_*`) and simulator attributes
+          (eigenvalues, labels, data, coefficients) are changed in place by their owner; an identical later call
+          / a twin built before must be unaffected (no shared or cached result objects).
   zc      Datasets `zhang_chen` curves = mu + vi + eps from scripted draws (two generator calls per curve).
   bm      Brownian paths (standard / geometric) from scripted draws; non-default `init_point`, `mu`, `sigma`.
   grid    the regular-spacing guard of `Brownian.new`.
@@ -257,7 +260,11 @@ def gen_cases(rng: Rng, tier):
         spec = _gen_spec(rng)
         # boundary seeds are drawn explicitly: 0 (falsy), 1, the largest 32-bit value
         seed = rng.choice([None, rng.randint(0, 2**31 - 1), rng.randint(0, 2**31 - 1), rng.randint(0, 50), 0, 0, 1, 2**32 - 1])
-        yield dict(kind="twin", spec=spec, seed=seed, gseed=rng.randint(0, 10**6), calls=_gen_calls(rng, spec, 6 if tier == "thorough" else 5))
+        # the first twin gets the seed as an integer-like object of this type, the second as a Python int
+        stype = rng.choice(["int", "int", "np.int64", "np.int32", "np.uint32", "np.uint64", "array0d", "np.intp"])
+        if seed is None or (stype == "np.int32" and seed >= 2**31):
+            stype = "int"
+        yield dict(kind="twin", spec=spec, seed=seed, seed_type=stype, gseed=rng.randint(0, 10**6), calls=_gen_calls(rng, spec, 6 if tier == "thorough" else 5))
     pairs = [(n, k) for n in range(0, 31) for k in range(1, 6)]
     if tier == "quick":
         pairs = rng.sample(pairs, nl - 8) + [(7, 3), (2, 4), (0, 1), (1, 1), (30, 4), (3, 3), (4, 3), (29, 4)]
@@ -307,6 +314,11 @@ def gen_cases(rng: Rng, tier):
                    Zc=[[rs(x) for x in rng.dyadics(3, -2, 2, 2)] for _ in range(n_obs)],
                    Ze=[[rs(x) for x in rng.dyadics(m, -2, 2, 3)] for _ in range(n_obs)],
                    post=rng.choice([[], ["sparse"], ["comb"]]))
+    # results of the simulation helpers / simulator attributes must not be shared with later identical calls
+    helpers = [("eig", nm) for nm in ["linear", "exponential", "quadratic", "inverse", "sqrt", "wiener"]] + [("centers", None), ("cstd", "linear"), ("cstd", None), ("sim", "linear"), ("sim", "wiener"), ("sim", None)]
+    for hk, nm in helpers if tier == "quick" else helpers * 4:
+        yield dict(kind="fresh", helper=hk, name=nm, n=rng.choice([1, 2, 3, 5, 8]), k=rng.randint(1, 3), n_obs=rng.randint(2, 6), seed=rng.randint(0, 99),
+                   how=rng.choice(["cumsum", "fill", "negate"]))
     for _ in range(ng):
         m = rng.randint(2, 8)
         h = rng.choice([Fraction(1, 4), Fraction(1, 8), Fraction(1), Fraction(3, 16)])
@@ -365,7 +377,13 @@ def _run_op(sim, spec, call, seeded):
 def _impl_twin(case):
     spec, seed = case["spec"], case["seed"]
     np.random.seed(case["gseed"])
-    A, B = _make_sim(spec, seed), _make_sim(spec, seed)
+    typed = {"int": lambda v: v, "np.int64": np.int64, "np.int32": np.int32, "np.uint32": np.uint32, "np.uint64": np.uint64,
+             "np.intp": np.intp, "array0d": lambda v: np.array(v)}[case.get("seed_type", "int")]
+    try:
+        A = _make_sim(spec, seed if seed is None else typed(seed))
+    except Exception as e:  # noqa: BLE001  (a seed type the constructor refuses: nothing to compare)
+        return dict(recs=[], gflags=[], seed_rejected=err_class(e) + ": " + str(e)[:80])
+    B = _make_sim(spec, seed)
     recs = []
     gflags = []
     for call in case["calls"]:
@@ -636,6 +654,68 @@ def _impl_zc(case):
                 grid_same=bool(np.array_equal(sim.data.argvals["input_dim_0"], t)))
 
 
+def _spoil(a, how):
+    """change an array in place, as a caller owning it may do"""
+    a = np.asarray(a)
+    if a.size == 0 or not a.flags.writeable:
+        return
+    if how == "cumsum" and a.ndim == 1 and a.dtype.kind == "f":
+        np.cumsum(a, out=a)
+        a += 1.0
+    elif how == "negate":
+        np.negative(a, out=a) if a.dtype.kind in "fi" else None
+        a -= 7
+    else:
+        a.fill(-5)
+
+
+def _impl_fresh(case):
+    """call; keep a copy; let the caller change the first result in place; call again: the second result
+    must be what the first was, and share no memory with it"""
+    from FDApy.representation.argvals import DenseArgvals
+    from FDApy.simulation import karhunen as K
+
+    hk, nm, n, k = case["helper"], case["name"], case["n"], case["k"]
+    out = dict(status="ok", items=[])
+
+    def item(label, first, second):
+        f0 = np.array(first, copy=True)
+        shares = bool(np.shares_memory(np.asarray(first), np.asarray(second))) if np.asarray(first).size else False
+        _spoil(first, case["how"])
+        return label, f0, shares
+
+    if hk in ("eig", "centers", "cstd"):
+        fn = {"eig": lambda: K._simulate_eigenvalues(nm, n), "centers": lambda: K._initialize_centers(n, k, None),
+              "cstd": lambda: K._initialize_clusters_std(n, k, nm)}[hk]
+        r1 = fn()
+        r2 = fn()
+        label, f0, shares = item(hk, r1, r2)
+        r3 = fn()
+        out["items"].append(dict(label=label, shares=shares, first=f0.tolist(), third=np.asarray(r3).tolist()))
+        return out
+    # simulator attributes: twins; the first twin's results are changed in place before the second is used
+    def mk():
+        s_ = K.KarhunenLoeve(n_functions=max(n, 2), basis_name="fourier", argvals=DenseArgvals({"input_dim_0": np.linspace(0, 1, 7)}), random_state=case["seed"])
+        s_.new(n_obs=case["n_obs"], n_clusters=k, **({"clusters_std": nm} if nm else {}))
+        return s_
+
+    a = mk()
+    snap = dict(eigenvalues=np.array(a.eigenvalues, copy=True), labels=np.array(a.labels, copy=True), data=np.array(a.data.values, copy=True),
+                coefficients=np.array(a.data_basis.coefficients, copy=True), basis=np.array(a.basis.values, copy=True))
+    b = mk()
+    objs_a = dict(eigenvalues=a.eigenvalues, labels=a.labels, data=a.data.values, coefficients=a.data_basis.coefficients, basis=a.basis.values)
+    objs_b = dict(eigenvalues=b.eigenvalues, labels=b.labels, data=b.data.values, coefficients=b.data_basis.coefficients, basis=b.basis.values)
+    shares = {key: bool(np.shares_memory(np.asarray(objs_a[key]), np.asarray(objs_b[key]))) for key in objs_a}
+    for key in ("eigenvalues", "labels", "data", "coefficients"):
+        _spoil(objs_a[key], case["how"])
+    c = mk()
+    objs_c = dict(eigenvalues=c.eigenvalues, labels=c.labels, data=c.data.values, coefficients=c.data_basis.coefficients, basis=c.basis.values)
+    for key in objs_a:
+        out["items"].append(dict(label="simulator." + key, shares=shares[key], first=snap[key].tolist(), third=np.asarray(objs_c[key]).tolist(),
+                                 second=np.asarray(objs_b[key]).tolist()))
+    return out
+
+
 def _impl_grid(case):
     from FDApy.simulation.brownian import Brownian
 
@@ -649,7 +729,7 @@ def _impl_grid(case):
 
 
 def run_impl(case):
-    return {"twin": _impl_twin, "labels": _impl_labels, "eig": _impl_eig, "kl": _impl_kl, "bm": _impl_bm, "grid": _impl_grid, "zc": _impl_zc}[case["kind"]](case)
+    return {"twin": _impl_twin, "labels": _impl_labels, "eig": _impl_eig, "kl": _impl_kl, "bm": _impl_bm, "grid": _impl_grid, "zc": _impl_zc, "fresh": _impl_fresh}[case["kind"]](case)
 
 
 # --------------------------------------------------------------------------
@@ -729,6 +809,11 @@ def model_lines(case, impl):
         return lines
     if kind == "grid":
         return [f"grid {J(case['t'])}"]
+    if kind == "fresh":
+        # the named sequence returned AFTER the caller changed an earlier result must still be the model's
+        if case["helper"] == "eig" and case["name"] in ("linear", "quadratic", "inverse"):
+            return [f"eig {case['name']} {case['n']}"]
+        return []
     if kind == "zc":
         if impl.get("status") != "ok" or len(impl["calls"]) != 2 * case["n_obs"]:
             return []
@@ -845,6 +930,12 @@ def compare(case, impl, model):
             if bad:
                 ds.append(f"curve {i} point {bad[0]}: path {f[bad[0]]!r} vs model {float(q[bad[0]])!r}")
         return ds[:4]
+    if kind == "fresh":
+        q = _pvec(outs[0])
+        third = impl["items"][0]["third"]
+        if len(third) != len(q) or any(not close(f, x, 1.0, 1e-12) for f, x in zip(third, q)):
+            ds.append(f"{case['name']} eigenvalues returned after an earlier result was changed in place: {third} vs exact {[float(x) for x in q]}")
+        return ds
     if kind == "zc":
         if impl["status"] != "ok":
             return [f"implementation raised {impl['status']}: {impl.get('msg')}"]
@@ -894,7 +985,8 @@ def oracle(case, impl):
                     bad("twins_agree", entry, f"call {ci}: twin outcomes differ: {a['status']} vs {b['status']}")
                 for key in ("data", "noisy_data", "sparse_data", "labels"):
                     if a["dig"][key] != b["dig"][key]:
-                        bad("twins_agree", entry, f"call {ci} ({call['op']}): `{key}` of two simulators built with seed {case['seed']} and driven by the same calls differ",
+                        how = "" if case.get("seed_type", "int") == "int" else f" (the first one was given the seed as {case['seed_type']})"
+                        bad("twins_agree", entry, f"call {ci} ({call['op']}): `{key}` of two simulators built with seed {case['seed']}{how} and driven by the same calls differ",
                             ["global_generator_used"] if (a["glob_changed"] or b["glob_changed"]) else [])
                         break
                 for r, nm in ((a, "first"), (b, "second")):
@@ -1024,6 +1116,16 @@ def oracle(case, impl):
                     bad("geometric_positive", "Brownian.new", f"curve {i} is not positive: {row}")
                     break
         return vs
+    if kind == "fresh":
+        entry = {"eig": "_simulate_eigenvalues", "centers": "_initialize_centers", "cstd": "_initialize_clusters_std", "sim": "KarhunenLoeve.new"}[case["helper"]]
+        for it in impl["items"]:
+            if it["shares"] and it["label"] != "simulator.basis":
+                bad("results_independent", entry, f"{it['label']}: the results of two identical calls share memory — a caller changing one changes the other", ["shared_result"])
+            for key in ("second", "third"):
+                if key in it and not _same_arr(it["first"], it[key]):
+                    bad("results_independent", entry, f"{it['label']}: after the first result was changed in place by its owner, an identical {'call' if key == 'third' else 'earlier call'} gives {str(it[key])[:80]} instead of {str(it['first'])[:80]}", ["shared_result"])
+                    break
+        return vs
     if kind == "zc":
         if impl["status"] != "ok":
             bad("zhang_chen_structure", "Datasets.new", f"raised {impl['status']}: {impl.get('msg')}")
@@ -1056,6 +1158,11 @@ def oracle(case, impl):
     return vs
 
 
+def _same_arr(a, b):
+    a, b = np.asarray(a, dtype=float), np.asarray(b, dtype=float)
+    return a.shape == b.shape and bool(np.array_equal(a, b, equal_nan=True))
+
+
 def nontrivial(case, impl):
     if "__crash__" in impl:
         return None
@@ -1072,6 +1179,7 @@ def classify(case, impl):
     if case["kind"] == "twin":
         tags.append("sim:" + case["spec"]["kind"])
         tags.append("seed:" + ("none" if case["seed"] is None else "set"))
+        tags.append("seed_type:" + case.get("seed_type", "int") + (":rejected" if impl.get("seed_rejected") else ""))
         tags.append("calls:" + str(len(case["calls"])))
         for call, rec in zip(case["calls"], impl["recs"]):
             tags.append(f"op:{call['op']}:{rec['a']['status'].split(':')[0]}")
